@@ -31,17 +31,23 @@ func sortNaturalFilter(array []any, key any) any {
 			if rv.Kind() != reflect.Map {
 				return ""
 			}
+			if !reflect.TypeOf(key).AssignableTo(rv.Type().Key()) {
+				return ""
+			}
 			ev := rv.MapIndex(reflect.ValueOf(key))
-			if ev.CanInterface() {
+			if ev.IsValid() && ev.CanInterface() {
 				if s, ok := ev.Interface().(string); ok {
 					return strings.ToLower(s)
 				}
 			}
 			return ""
 		}})
+	case array[0] == nil:
+		// not an array of strings; leave the order alone
 	case reflect.TypeOf(array[0]).Kind() == reflect.String:
 		sort.Sort(keySortable{result, func(s any) string {
-			return strings.ToUpper(s.(string))
+			str, _ := s.(string) // non-strings in a mixed array sort first
+			return strings.ToUpper(str)
 		}})
 	}
 	return result
